@@ -93,3 +93,22 @@ impl<T> AsSliceIdentity<T> for [T] { fn as_slice(&self) -> &[T] { self } }
   vec_as_slice args
 @*/
 /*@end*/
+
+// ---- comparison dispatch of integer_branch / float_branch (rule R8: the `let condition = match ..` initializer) ----
+/*@fn lang/dynamics/src/impls.rs :: fn integer_comparison
+  plain
+@*/
+/*@end*/
+/*@fn lang/dynamics/src/impls.rs :: fn float_comparison
+  plain
+@*/
+/*@end*/
+pub fn integer_branch_condition(integer_type: IntegerType, first: &ZValue, second: &ZValue, operation: IntegerOperation) -> bool {
+    /*@let lang/dynamics/src/impls.rs :: fn integer_branch :: let condition @*/
+}
+pub fn float_branch_condition(float_type: FloatType, first: &ZValue, second: &ZValue, operation: FloatOperation) -> bool {
+    /*@let lang/dynamics/src/impls.rs :: fn float_branch :: let condition @*/
+}
+pub fn str_split_once_kernel(string: &Utf8String, separator: &char) -> Option<(Utf8String, Utf8String)> {
+    /*@let lang/dynamics/src/impls.rs :: fn str_split_once_branch :: let pair @*/
+}
